@@ -163,7 +163,20 @@ def run_writer_check(pid, tier, groups, bset=REAL_B, assumptions=(), level="mode
         f2 = core.drive("writer", [prog], rname, shards=1)
         r2 = core.validate("WSWriterTrace.tla", "WSWriterTrace.cfg", f2, rname)
         if not r2["rejections"]:
-            raise core.Infra("rejection of %s did not reproduce" % tid)
+            # not reproducible alone: does it depend on what ran before it in the same process?
+            seq = core.history_of(conc, base)
+            hit = []
+            if seq:
+                core.rundir(rname)
+                f3 = core.drive("writer", seq, rname, shards=1)
+                r3 = core.validate("WSWriterTrace.tla", "WSWriterTrace.cfg", f3, rname, max_rej=50)
+                hit = [x for x in r3["rejections"] if x["tid"].split("/")[0] == base]
+            if not hit:
+                raise core.Infra("rejection of %s did not reproduce" % tid)
+            violations.append(core.save_replay(pid, "writer", dict(id=base, batch=seq), hit[0]["trace"],
+                                               "event %d not explained by WSWriter (only after the %d programs that ran before it in the same process): %s" % (
+                                                   hit[0]["index"], len(seq) - 1, json.dumps(hit[0]["event"])[:500])))
+            continue
         rj2 = r2["rejections"][0]
         path = core.save_replay(pid, "writer", prog, rj2["trace"], "event %d not explained by WSWriter: %s" % (rj2["index"], json.dumps(rj2["event"])[:600]))
         violations.append(path)
